@@ -222,9 +222,9 @@ Definition model_step (k : case) (bt : N) (s : state) (h : header) : outcome sta
 
 (** would the model consult the seal oracle for [h]? *)
 Definition seal_consulted (t : table) (bt : N) (s : state) (h : header) : bool :=
-  negb (chain_id s =? rinkeby) &&& validate_basic h
+  negb (chain_id s =? rinkeby) &&& validate_basic h &&& rev_ok cur s h
   &&& match verify_header (t_hash t) bt s h with Ok _ => true | _ => false end
-  &&& negb (32 <? len (h_extra h)).
+  &&& exp_ok cur bt s h &&& negb (32 <? len (h_extra h)).
 
 (** Kinds: 1 class differs, 2 state after an accepted step differs, 3 state after creation
     differs, 12 the model consulted a seal verdict the harness did not tabulate, 13 a
@@ -290,12 +290,21 @@ Definition main_chain_ok (t : table) (s : state) : bool :=
                     || match at_height mc n with Some a => cstate_eqb c (cstate_of a) | None => false end)
           (cons s).
 
-(** the hypotheses about the accepted history under which Props/C10.v proves the invariant:
-    same revision number as the head; no other stored header of that height with the same root *)
+(** the hypotheses about the accepted history under which Props/C10.v proves the invariant that are NOT met by
+    every header tree: same revision number as the head (else 2); no other stored header of that height with the
+    same state root (else 1).  (The third hypothesis, [noalias_b] -- the header is not a second byte encoding of a
+    stored header with the same hash -- is a restriction of the proof only: the monitors keep checking the property
+    at full strength after such a step.) *)
 Definition step_hyp (t : table) (s : state) (h : header) : nat :=
   if negb (h_rev h =? h_rev (head s)) then 2%nat
-  else if negb (noalias_b (t_hash t) s h) then 2%nat
-  else if negb (fresh_root_b (t_hash t) s h) then 1%nat else 0%nat.
+  else if negb fix_root &&& negb (fresh_root_b (t_hash t) s h) then 1%nat else 0%nat.
+
+(** [should_accept] without [noalias_b] *)
+Definition should_accept_m (t : table) (bt : N) (s : state) (h : header) : bool :=
+  active bt s &&& valid_child_b (t_hash t) (t_seal t) bt s h &&& (h_rev h =? h_rev (head s)) &&& exp_ok cur bt s h
+  &&& (fix_root || fresh_root_b (t_hash t) s h) &&&
+  (beq (t_hash t (head s)) (h_parent h)
+   || meets s h (if prune_due bt s then base s + 1 else base s)).
 
 (** Kinds (st = the step):
     21 accepted although no rule-abiding parent is stored (parent lookup / hash / rules)
@@ -333,11 +342,10 @@ Fixpoint mon_steps (k : case) (i : nat) (pre : state) (hyp : nat) (l : list step
       else
         let next := mon_steps k (S i) pre hyp l' in
         if Nat.eqb (o_class o) 2 then (i, 28%nat) :: next
-        else if valid && (h_rev h =? h_rev (head pre)) && active bt pre then
+        else if valid && (h_rev h =? h_rev (head pre)) && active bt pre && exp_ok cur bt pre h then
           match hyp with
-          | O => if should_accept (t_hash t) (t_seal t) bt pre h then (i, 25%nat) :: next
-                 else if negb (fresh_root_b (t_hash t) pre h) then (i, 43%nat) :: next
-                 else if negb (noalias_b (t_hash t) pre h) then (i, 44%nat) :: next
+          | O => if should_accept_m t bt pre h then (i, 25%nat) :: next
+                 else if negb fix_root &&& negb (fresh_root_b (t_hash t) pre h) then (i, 43%nat) :: next
                  else (i, 41%nat) :: next
           | 1%nat => (i, 43%nat) :: next
           | _ => (i, 44%nat) :: next
@@ -361,13 +369,15 @@ Definition monitor_failures (ks : list (nat * option case)) : list (nat * (nat *
                       | Some k => map (fun m => (fst ik, m)) (mon_case k)
                       | None => [] end) ks.
 
-(** Sanity of the tabulated hash oracle (hypotheses [hash_len], [hash_num] of the theorems):
-    every hash has 32 bytes, headers with different numbers have different hashes. *)
+(** Sanity of the tabulated hash oracle = the hypothesis [hash_ok_b] of the theorems (Model/Eth.v), evaluated on the
+    table: every hash has 32 bytes; two headers with the same hash have the same number and the same normalised
+    parent hash. *)
 Definition oracle_ok (t : table) : bool :=
   let t := filter (fun e => len (h_bloom (fst e)) <=? 256) t in     (* Header.Hash panics on a longer bloom *)
-  forallb (fun e => Nat.eqb (length (fst (snd e))) 32) t
-  && forallb (fun e1 => forallb (fun e2 => if h_num (fst e1) =? h_num (fst e2) then true
-                                          else negb (beq (fst (snd e1)) (fst (snd e2)))) t) t.
+  forallb (fun e1 => Nat.eqb (length (fst (snd e1))) 32
+                     && forallb (fun e2 => negb (beq (fst (snd e1)) (fst (snd e2)))
+                                           || ((h_num (fst e1) =? h_num (fst e2))
+                                               &&& beq (to_hash (h_parent (fst e1))) (to_hash (h_parent (fst e2))))) t) t.
 
 Definition oracle_failures (ks : list (nat * option case)) : list nat :=
   flat_map (fun ik => match snd ik with
@@ -378,3 +388,46 @@ Definition oracle_failures (ks : list (nat * option case)) : list nat :=
 Definition report (qs : list bytes) :=
   let ks := number 0 (map dec_case qs) in
   (mismatches ks, monitor_failures ks, oracle_failures ks).
+
+(** * Function-level differential (harness/cmd/c10/calc.go): the difficulty calculator, CalcBaseFee and
+    VerifyGaslimit of the real code on generated (parent, time, gas limit) triples and on consecutive main-net
+    headers.  [q_diff], [q_bf], [q_gl] are the values the CODE returned; [q_child] = the real child's
+    (difficulty, base fee) for the main-net pairs. *)
+Record qcase := {
+  q_p : header; q_time : N; q_hg : N;
+  q_diff : Z; q_bf : option N (* None = panic *); q_gl : bool;
+  q_child : option (N * N) }.
+
+Definition mkq (ptime pnum pgl pgu : N) (puncle pdiff pbf : string) (time hg : N) (diff : Z) (bf : option N) (gl : bool)
+               (child : option (N * N)) : qcase :=
+  {| q_p := {| h_parent := []; h_uncle := unhex puncle; h_coinbase := []; h_root := []; h_tx := []; h_receipt := []; h_bloom := [];
+               h_diff := unhex pdiff; h_rev := 0; h_num := pnum; h_gaslimit := pgl; h_gasused := pgu; h_time := ptime;
+               h_extra := []; h_mix := []; h_nonce := 0; h_basefee := unhex pbf |};
+     q_time := time; q_hg := hg; q_diff := diff; q_bf := bf; q_gl := gl; q_child := child |}.
+
+(** model vs code: 31 difficulty, 32 base fee (value or panic), 33 gas-limit verdict *)
+Definition calc_cmp (q : qcase) : list nat :=
+  (if (calc_difficulty (q_time q) (q_p q) =? q_diff q)%Z then [] else [31%nat]) ++
+  (match calc_base_fee (q_p q), q_bf q with
+   | Ok a, Some b => if a =? b then [] else [32%nat]
+   | Panic, None => []
+   | _, _ => [32%nat]
+   end) ++
+  (if Bool.eqb (verify_gaslimit (h_gaslimit (q_p q)) (q_hg q)) (q_gl q) then [] else [33%nat]).
+
+(** monitor (code vs the real chain, no model involved): the values the CODE computes from a real main-net parent
+    are the real child's -- otherwise the client refuses a rule-abiding child of a stored header.
+    35 difficulty, 36 base fee, 37 gas limit refused *)
+Definition calc_mon (q : qcase) : list nat :=
+  match q_child q with
+  | None => []
+  | Some (cd, cbf) =>
+      (if (q_diff q =? Z.of_N cd)%Z then [] else [35%nat]) ++
+      (match q_bf q with Some b => if b =? cbf then [] else [36%nat] | None => [36%nat] end) ++
+      (if q_gl q then [] else [37%nat])
+  end.
+
+Definition calc_report (qs : list qcase) : list (nat * nat) * list (nat * nat) :=
+  let n := number 0 qs in
+  (flat_map (fun iq => map (fun k => (fst iq, k)) (calc_cmp (snd iq))) n,
+   flat_map (fun iq => map (fun k => (fst iq, k)) (calc_mon (snd iq))) n).
